@@ -62,6 +62,9 @@ Inductive aval : Type :=
 | VTupleClass (formals : list aval)               (* abstract.TupleClass (positions 0..n-1) *)
 | VCallableClass (args : list aval) (ret : aval)  (* abstract.CallableClass (positions 0..n-1, RET) *)
 | VUnion (options : list aval)                    (* abstract.Union *)
+| VTParamInst (vals : list aval)                  (* abstract TypeVar instance (T, instance): [vals] is what
+                                                     instance.get_instance_type_parameter(T) holds (materialised);
+                                                     only produced by the declaration-level model, Conv/Decl.v *)
 | VError.
 
 (* what pytd_for_types emits for one name:  name: T   or   name = T *)
@@ -295,6 +298,10 @@ Fixpoint out (v : aval) : ty :=
   | VClass _ | VParamClass _ _ | VTupleClass _ | VCallableClass _ _ =>
       TGeneric type_id [out_cls v]                          (* isinstance(v, abstract.Class) *)
   | VUnion os => join (map out os)
+  | VTParamInst vals =>                                     (* _type_variable_to_pytd_type: the parameter was
+                                                               initialised -> JoinTypes of its values; an unbounded,
+                                                               unconstrained TypeVar otherwise -> Any *)
+      match vals with [] => TAny | _ => join (map out vals) end
   | VError => TError
   end.
 
